@@ -392,6 +392,35 @@ theorem cursors_in_bounds (cap data : Nat) (hd : 0 < data) (ops : List Op) (hwf 
   rw [← hs.ch] at h1 h2 h3
   exact ⟨h1, h2, h3⟩
 
+/-- **the writer never passes a bookmark (C02, on the C fields)** — after any well-formed history every registered reader's bookmark
+`(holds_cycles[i], holds_pos[i])` is either on the writer's lap and at or behind `head`, or exactly one lap behind and at or beyond
+`mapped` (and within `high`): no reader is ever more than one lap behind, and nothing at or after a lagging bookmark has been mapped
+for writing. -/
+theorem bookmarks_behind_writer (cap data : Nat) (hd : 0 < data) (ops : List Op) (hwf : wfRun (Sys.init cap) ops = true)
+    (i : Nat) (hi : i < (crun (CSys.init cap data) ops).ch.holds_n) :
+    ((crun (CSys.init cap data) ops).ch.holds_cycles.getD i 0 = (crun (CSys.init cap data) ops).ch.cycle ∧
+      (crun (CSys.init cap data) ops).ch.holds_pos.getD i 0 ≤ (crun (CSys.init cap data) ops).ch.head) ∨
+    ((crun (CSys.init cap data) ops).ch.holds_cycles.getD i 0 + 1 = (crun (CSys.init cap data) ops).ch.cycle ∧
+      (crun (CSys.init cap data) ops).ch.mapped ≤ (crun (CSys.init cap data) ops).ch.holds_pos.getD i 0 ∧
+      (crun (CSys.init cap data) ops).ch.holds_pos.getD i 0 ≤ (crun (CSys.init cap data) ops).ch.high) := by
+  have hs := refine_history cap data hd ops hwf
+  have hinv : Inv (run (Sys.init cap) ops) (grun (Sys.init cap) {} ops) := (Inv.init cap).run ops hwf
+  have hn := hs.n_le hinv
+  have hl := hinv.l_rds
+  have hold := (hinv.rd i (by omega)).1.hold
+  have hb : nth (run (Sys.init cap) ops).c.holds i =
+      ⟨(crun (CSys.init cap data) ops).ch.holds_pos.getD i 0, (crun (CSys.init cap data) ops).ch.holds_cycles.getD i 0⟩ := by
+    unfold nth
+    rw [← hs.ch]
+    simp only [abs]
+    rw [holdsOf_getD _ _ _ _ hi]
+  rw [hb, ← hs.ch] at hold
+  unfold HoldRel at hold
+  simp only [abs] at hold
+  rcases hold with ⟨a, b, _⟩ | ⟨a, b, c, _⟩
+  · exact Or.inl ⟨a, b⟩
+  · exact Or.inr ⟨a, b, c⟩
+
 /-! ## non-vacuity: a concrete history with a wrap, a lap change and partial consumption, run through the translated functions -/
 def demoOps : List Op :=
   [.join, .wmap 10, .wcommit, .rmap 0, .runmap 0 10, .join, .runmap 1 10, .wmap 10, .wcommit, .rmap 0, .runmap 0 3,
